@@ -2,6 +2,7 @@ package main
 
 import (
 	"encoding/json"
+	"go/types"
 	"flag"
 	"fmt"
 	"os"
@@ -40,9 +41,11 @@ func main() {
 	keep := fs.Bool("keep", false, "keep SMT files")
 	verbose := fs.Bool("v", false, "verbose")
 	noEvidence := fs.Bool("no-evidence", false, "do not write evidence/replay files")
+	learn := fs.Bool("learn", false, "compute unsat cores and store them as proof hints")
 	vd := fs.String("verif", envOr("VERIF_DIR", "/verif"), "verif directory")
 	fs.Parse(os.Args[2:])
 	verifDir = *vd
+	learnMode = *learn
 	switch cmd {
 	case "ssa":
 		P := mustLoad(*repo)
@@ -98,6 +101,7 @@ func loadPrelude() string {
 		b.WriteString("\n")
 	}
 	parseSpecSigs(b.String())
+	parsePreludeForms(b.String())
 	return b.String()
 }
 
@@ -106,6 +110,7 @@ func check(repo, prop, tier, fnKey string, keep, verbose, noEvidence bool) int {
 	seed, _ := strconv.Atoi(os.Getenv("VERIF_SEED"))
 	P := mustLoad(repo)
 	loadT := time.Since(start)
+	registerNamedSorts(P)
 	prelude := loadPrelude()
 	loadPreludeCached = prelude
 	var plan Plan
@@ -202,7 +207,15 @@ func check(repo, prop, tier, fnKey string, keep, verbose, noEvidence bool) int {
 	if d.thorough {
 		d.timeout = 60
 	}
+	hp := prop
+	if hp == "" {
+		hp = "adhoc"
+	}
+	loadHints(hp)
 	d.dischargeAll(obs)
+	if learnMode {
+		saveHints()
+	}
 	return report(P, v, &plan, prop, tier, seed, obs, excluded, fnsUnder, start, loadT, genT, d, verbose, noEvidence)
 }
 
@@ -421,3 +434,27 @@ func writeReplay(P *Program, v *Verifier, prop string, ob *Obligation) (string, 
 }
 
 var _ = ssa.InstantiateGenerics
+
+// registerNamedSorts maps every named struct type of the repository to its
+// datatype up front, so that the specification prelude can mention them.
+func registerNamedSorts(P *Program) {
+	for _, path := range P.Order {
+		p := P.ByPath[path]
+		if p == nil || p.Types == nil {
+			continue
+		}
+		sc := p.Types.Scope()
+		for _, n := range sc.Names() {
+			if tn, ok := sc.Lookup(n).(*types.TypeName); ok {
+				if _, isStruct := tn.Type().Underlying().(*types.Struct); isStruct {
+					if named, ok := tn.Type().(*types.Named); ok && named.TypeParams().Len() == 0 {
+						func() {
+							defer func() { recover() }()
+							sortOf(tn.Type())
+						}()
+					}
+				}
+			}
+		}
+	}
+}
